@@ -61,6 +61,30 @@ def word_lambda_op(u, lam):
     return None
 
 
+def bit_accesses(u, fn):
+    """the single-bit accesses a function body makes, whatever the spelling: X.set(I, V) and X[I] = V are ("set", X, I, V);
+    X.get(I) and X[I] read as a value are ("get", X, I). Terms are shown strings."""
+    out = []
+    consumed = set()
+    for n in F.walk(fn.get("body"), into_lambdas=False):
+        if n.get("k") != "call":
+            continue
+        q = T.callee_qn(u, n) or ""
+        if q.endswith("bitfield::object::set") and len(n.get("args", [])) == 2:
+            out.append(("set", T.show(T.norm(u, n["recv"])), T.show(T.norm(u, n["args"][0])), T.show(T.norm(u, n["args"][1]))))
+        elif q.endswith("bitfield::object::get") and len(n.get("args", [])) == 1:
+            out.append(("get", T.show(T.norm(u, n["recv"])), T.show(T.norm(u, n["args"][0]))))
+        elif q.endswith("bitfield::proxy::operator=") and n.get("recv") is not None and len(n.get("args", [])) == 1:
+            r = T.unwrap(u, n["recv"])
+            if r is not None and r.get("k") == "call" and (T.callee_qn(u, r) or "").endswith("bitfield::object::operator[]") and len(r.get("args", [])) == 1:
+                consumed.add(id(r))
+                out.append(("set", T.show(T.norm(u, r["recv"])), T.show(T.norm(u, r["args"][0])), T.show(T.norm(u, n["args"][0]))))
+    for n in F.walk(fn.get("body"), into_lambdas=False):
+        if n.get("k") == "call" and id(n) not in consumed and (T.callee_qn(u, n) or "").endswith("bitfield::object::operator[]") and len(n.get("args", [])) == 1:
+            out.append(("get", T.show(T.norm(u, n["recv"])), T.show(T.norm(u, n["args"][0]))))
+    return out
+
+
 def transforms(u, fn):
     """std::transform calls over bitfield arrays: [(call node, lambda op, arg terms)]"""
     out = []
@@ -230,20 +254,26 @@ def main(rep, tier, only):
                 continue
             seen.add(key)
             calls = [q.split("::")[-1] for (_, _, q) in L.calls_in(u, fn.get("body"))]
+            acc = bit_accesses(u, fn)
+            rets_ = [T.show(T.snorm(u, fn, r["e"])) for r in F.walk(fn.get("body"), into_lambdas=False) if r.get("k") == "return" and r.get("e") is not None]
             if "bitfield::object" in pt[1] or short == "operator|":
                 ok = (short + "=") in calls
                 why = None if ok else "the value form does not delegate to %s=" % short
+                if not ok and short == "operator|" and "bitfield::object" not in pt[1]:
+                    # operator|=(field, enumerator) written out on the by-value copy: set bit `enumerator` of it, return it
+                    ok = [a for a in acc if a[0] == "set"] == [("set", "r_a0", "r_a1", "1")] and len(rets_) == 1 and re.sub(r"^fcppt::container::bitfield::object\{(.*)\}$", r"\1", rets_[0]) == "r_a0"
+                    why = None if ok else "field | enumerator neither delegates to |= nor sets exactly that bit of its copy and returns it (%s; returns %s)" % (acc, rets_)
             else:
-                ok = "get" in calls
-                why = None if ok else "operator&(field, enumerator) is not get(enumerator)"
+                ok = [a for a in acc if a[0] == "get"] == [("get", "r_a0", "r_a1")] and not [a for a in acc if a[0] == "set"]
+                why = None if ok else "operator&(field, enumerator) is not the value of bit `enumerator` of the field (%s)" % (acc,)
             (rep.fail if why else rep.ok)("MIRROR", key, F.primary_site(fn), F.describe(fn)[:160], **({"why": why} if why else {"how": "delegates"}))
         if short in ("operator|=",) and len(params) == 2 and "bitfield::object" not in pt[1]:
             key = "operator|=(enumerator)<%s>" % inst
             if key in seen:
                 continue
             seen.add(key)
-            st = [T.show(T.norm(u, n)) for (n, d, q) in L.calls_in(u, fn.get("body")) if q.endswith("::set")]
-            ok = st == ["r_a0.set(r_a1, 1)"] or (len(st) == 1 and st[0].startswith("r_a0.set(r_a1, "))
+            st = [a for a in bit_accesses(u, fn) if a[0] == "set"]
+            ok = st == [("set", "r_a0", "r_a1", "1")]
             (rep.ok if ok else rep.fail)("MIRROR", key, F.primary_site(fn), F.describe(fn)[:160], **({"how": "set(index,true)"} if ok else {"why": "field |= enumerator is %s" % st}))
         if short in ("operator==", "operator!="):
             key = "%s<%s>" % (short, inst)
@@ -256,6 +286,10 @@ def main(rep, tier, only):
                 t2 = re.sub(r"\s", "", t)
                 ok = t2 in ("operator==(r_a0.array(),r_a1.array())", "(r_a0.array()==r_a1.array())",
                             "operator==(r_a1.array(),r_a0.array())", "(r_a1.array()==r_a0.array())")
+                if not ok:
+                    # the arrays have one static size: std::equal over [begin, end) of one and begin (or [begin, end)) of the other
+                    m_ = re.match(r"^(?:std::)?equal\((r_a[01])\.array\(\)\.c?begin\(\),\1\.array\(\)\.c?end\(\),(r_a[01])\.array\(\)\.c?begin\(\)(?:,\2\.array\(\)\.c?end\(\))?\)$", t2)
+                    ok = bool(m_) and m_.group(1) != m_.group(2)
                 why = "== is not the comparison of the two whole storage arrays (%s): the representation is canonical (PAD), so == compares it as it is" % t
             else:
                 ok = t.startswith("!") and "==" in t
@@ -392,24 +426,85 @@ def main(rep, tier, only):
             def shown(x):
                 return T.show(T.norm(u, x, defs)).replace("this.", "").replace("this->", "")
             why = None
-            ifs = [n for n in F.walk(body, into_lambdas=False) if n.get("k") == "if"]
-            if len(ifs) == 1:
-                thn = [n for n in F.walk(ifs[0].get("then")) if n.get("k") == "compound_assign"]
-                els = [n for n in F.walk(ifs[0].get("else")) if n.get("k") == "compound_assign"]
+            # the word stored for _value == true and for _value == false, however the two cases are spelled (if / else over
+            # compound assignments, one assignment of a conditional expression, named old word): exactly one store per case,
+            # to word[array_offset(pos_)], of `old | mask` resp. `old & ~mask` with mask = bit_mask(bit_offset(pos_))
+            vname = fn["params"][0]["name"]
 
-                def word_ok(n):
-                    return "get_unsafe(array_offset(pos_))" in shown(n["l"])
+            def strip(t):
+                while isinstance(t, tuple) and t and t[0] == "cast":
+                    t = t[2]
+                if isinstance(t, tuple):
+                    return tuple(strip(x) if isinstance(x, tuple) else x for x in t)
+                return t
 
-                def mask_ok(n):
-                    return "bit_mask(bit_offset(pos_))" in shown(n["r"])
-                if len(thn) != 1 or thn[0].get("op") != "|=" or not word_ok(thn[0]) or not mask_ok(thn[0]) or "~" in shown(thn[0]["r"]):
-                    why = "setting a bit is not `word[array_offset(pos_)] |= bit_mask(bit_offset(pos_))`: %s" % ([shown(n["l"]) + " " + n.get("op", "") + " " + shown(n["r"]) for n in thn])
-                elif len(els) != 1 or els[0].get("op") != "&=" or not word_ok(els[0]) or not mask_ok(els[0]) or "~" not in shown(els[0]["r"]):
-                    why = "clearing a bit is not `word[array_offset(pos_)] &= ~bit_mask(bit_offset(pos_))`: %s" % ([shown(n["l"]) + " " + n.get("op", "") + " " + shown(n["r"]) for n in els])
-                elif shown(ifs[0]["cond"]) != fn["params"][0]["name"]:
-                    why = "the branch is not on the assigned value"
-            else:
-                why = "expected exactly one branch on the assigned value"
+            def stores(st, val):
+                """[(target term, value term)] executed by statement st when _value == val; None when the shape is not followed"""
+                if st is None:
+                    return []
+                k_ = st.get("k")
+                if k_ == "compound":
+                    out = []
+                    for c in st.get("ch", []):
+                        r_ = stores(c, val)
+                        if r_ is None:
+                            return None
+                        out += r_
+                    return out
+                if k_ in ("decl", "null"):
+                    return []
+                if k_ == "return":
+                    return []
+                if k_ == "if":
+                    c_ = T.show(T.norm(u, st["cond"], defs))
+                    if c_ == vname:
+                        return stores(st.get("then") if val else st.get("else"), val)
+                    if c_ == "!" + vname:
+                        return stores(st.get("else") if val else st.get("then"), val)
+                    return None
+                if k_ == "compound_assign" and st.get("op") in ("|=", "&="):
+                    tgt = strip(T.norm(u, st["l"], defs))
+                    return [(tgt, ("b", st["op"][0], tgt, strip(T.norm(u, st["r"], defs))))]
+                if k_ == "assign":
+                    tgt = strip(T.norm(u, st["l"], defs))
+                    v_ = strip(T.norm(u, st["r"], defs))
+                    if isinstance(v_, tuple) and v_ and v_[0] == "cond":
+                        c_ = T.show(v_[1])
+                        if c_ == vname:
+                            v_ = v_[2] if val else v_[3]
+                        elif c_ == "!" + vname:
+                            v_ = v_[3] if val else v_[2]
+                        else:
+                            return None
+                    return [(tgt, v_)]
+                return None
+            for val in (True, False):
+                sts = stores(body, val)
+                if sts is None:
+                    rep.broken("C10 ADDR %s(bool) at %s: the assignment is written in a form this rule does not follow" % (key, F.primary_site(fn)))
+                    why = "broken"
+                    break
+                if len(sts) != 1:
+                    why = "for _value == %s the proxy stores %d words, expected exactly one" % (str(val).lower(), len(sts))
+                    break
+                tgt, v_ = sts[0]
+                tt_ = T.show(tgt).replace("this.", "").replace("this->", "")
+                if "get_unsafe(array_offset(pos_))" not in tt_:
+                    why = "the word written is %s, expected word[array_offset(pos_)]" % tt_
+                    break
+
+                def is_mask(t):
+                    return "bit_mask(bit_offset(pos_))" in T.show(t).replace("this.", "").replace("this->", "") and "~" not in T.show(t)
+                okv = False
+                if isinstance(v_, tuple) and v_ and v_[0] == "b" and v_[1] == ("|" if val else "&"):
+                    for (x, y) in ((v_[2], v_[3]), (v_[3], v_[2])):
+                        if x == tgt and (is_mask(y) if val else (isinstance(y, tuple) and y and y[0] == "u" and y[1] == "~" and is_mask(y[2]))):
+                            okv = True
+                if not okv:
+                    why = "%s a bit stores %s, expected `word %s`" % ("setting" if val else "clearing", T.show(v_).replace("this.", ""), "| bit_mask(bit_offset(pos_))" if val else "& ~bit_mask(bit_offset(pos_))")
+                    break
+            if why == "broken":
+                continue
             (rep.fail if why else rep.ok)("ADDR", key + "(bool)", F.primary_site(fn), F.describe(fn)[:160], **({"why": why} if why else {"how": "index/bit/mask from pos_; |= mask / &= ~mask"}))
         if fn.get("kind") == "conversion":
             if "proxy::conversion" in pseen:
